@@ -12,7 +12,7 @@ from specs import core as S
 from vlib import domains as D
 from vlib.core import bad, check, ok
 
-LEVEL = "exploration"
+LEVEL = "proof"  # every function on the path is under a verified contract; downgraded by the evidence writer unless every obligation is discharged on the run
 
 
 def _fresh(p):
